@@ -41,6 +41,9 @@ P = {
  "C17": dict(level="other", tech="abstract interpretation of color15 with fully symbolic inputs: bit provenance for the two pack/unpack compositions, interval analysis of every narrowing conversion / product / sum, gated-term shape of each packed channel (dependence set, clamp condition, both restrictions), term of Luminosity",
    text="The pack clause is decided for all 2^16 colours and all 2^24 triples at once by bit provenance; absence of lossy narrowing and overflow for all channels in 0..31, multiplicands 0..255 and divisors 1..255 by intervals; the per-channel result is shown to be the term min(31, floor(ch*m/d)) of its own channel by restricting the gated merge to both sides of the clamp. Consequences such as monotonicity in the ratio are implied by that term and are not separately checked.",
    note="Trusted: go/ssa, absint; divisor != 0 is the property's precondition; the shape clause relies on the narrowing clause (term keys identify values modulo their width).", ref="4 C17"),
+ "C10": dict(level="other", tech="abstract interpretation with linear forms of BusReader/BusWriter (two offset cells, bank and offset symbolic) and of busWriter.Write (symbolic writer and payload): window start/end terms, guard-implies-bound check on the comparison in force at the copy, progress term restricted to accepted/refused paths, mod-set of the always-error methods",
+   text="Window bounds are linear-form identities valid for every bank and offset; the no-silent-partial-write clause is decided as an implication between the guard comparison dominating copy and the remaining-window term; refusal changes nothing by restriction of the gated progress term. What bytes.Reader returns and images shorter than the addressed bank are outside the claim. Two genuine defects (window ends one byte early in reader and writer) are recorded as known findings because a baseline test pins the behaviour.",
+   note="Trusted: go/ssa, absint, bytes.Reader, builtin copy; 24-bit bus addresses; len(p) < 2^31.", ref="4 C10"),
 }
 reasons_pending = "no check is registered for this property at this commit (machinery not built yet); see DESIGN.md section 4 for the planned static rules"
 
